@@ -463,6 +463,25 @@ func (w *workerState) handle(raw json.RawMessage) any {
 			res.Races++
 		}
 		o, fs := w.h.Judge(sc, r)
+		// happens-before races found by the vector-clock scan of this execution are violations in every harness (the
+		// atomicity of the code between scheduling points rests on their absence); harnesses that report them
+		// themselves use the same signature
+		for _, rc := range r.Races {
+			a, b := rc.First, rc.Then
+			if a > b {
+				a, b = b, a
+			}
+			sig := "data race: " + a + " <-> " + b
+			dup := false
+			for _, f := range fs {
+				if f.Signature == sig {
+					dup = true
+				}
+			}
+			if !dup {
+				fs = append(fs, Finding{Signature: sig, Detail: rc.String()})
+			}
+		}
 		res.Outcomes[o]++
 		for _, f := range fs {
 			if i, ok := seen[f.Signature]; ok {
